@@ -9,7 +9,7 @@ CONFIG = {'gen': ['ConstsC02'],
          'AV-list, empty and random target info; the LM/NT payloads inside CreateAuthenticateMessage for both NTLMv1 and NTLMv2 flag sets; '
          'distinct = distinct input line; non-trivial = implementation output is a non-empty value NTLMv2 objects are built either by '
          'NewNTLMv2 directly or, in a third of the cases, by NewNTLMv2 for another credential with every field assigned afterwards (object '
-         'history: results must depend on the current fields only).',
+         'history: results must depend on the current fields only). Target information of 440..60000 bytes and blobs of 500..65000 bytes (nothing may be sized by a guess).',
  'assumptions': ['MD4, HMAC-MD5, DES, hex, strings.ToUpper and the UTF-16 encoder are arbitrary functions in the theorems (laws assumed: '
                  'HMAC-MD5 returns 16 bytes, hex decodes back, DES ignores key parity bits); at run time the residual expressions are '
                  'evaluated with x/crypto/md4 and the Go standard library',
